@@ -1,5 +1,5 @@
 (** C14: the JSON answers, field by field, are the store's data. *)
-From IV Require Import Base.Bytes Base.BytesFacts Model.StoreSpec Model.Rest.
+From IV Require Import Base.Bytes Base.BytesFacts Model.StoreSpec Model.Rest Proofs.Rest.
 Open Scope N_scope.
 
 Lemma header_fields mb v :
@@ -35,3 +35,30 @@ Lemma list_rendered st mb :
   render (PList mb (map view_of (box mb (live st)))) =
   JHeaders (map (fun e => jheader_of mb (view_of e)) (box mb (live st))).
 Proof. cbn [render]. rewrite map_map. reflexivity. Qed.
+
+(** The answers themselves: what a handler writes is the rendering of the very entry StoreSpec's
+    operation returns — the listing of [Lst mb] header by header, the message of
+    [Get mb (Kth | Latest)] (the id of the request goes into the attachment links only). *)
+Theorem json_answers_are_store_entries mfa cfg srcok st name id num body mb :
+  mfa name = Some mb ->
+  (run_handler mfa cfg srcok st HList name id num body =
+     (st, (S200, PList mb (map view_of (box mb (live st))))) /\
+   render (PList mb (map view_of (box mb (live st)))) = JHeaders (map (fun e => jheader_of mb (view_of e)) (box mb (live st)))) /\
+  (forall v, spec_get cfg st mb id = Ok v -> srcok mb (fst v) = true ->
+     run_handler mfa cfg srcok st HShow name id num body = (st, (S200, PMsg mb id v)) /\
+     render (PMsg mb id v) = JMessage (jmessage_of mb id v) /\
+     run_handler mfa cfg srcok st UMsg name id num body = (st, (S200, PUi mb v)) /\
+     render (PUi mb v) = JUiMessage (juimessage_of mb v)).
+Proof.
+  intros M. split.
+  - split; [unfold run_handler; rewrite M; reflexivity|apply list_rendered].
+  - intros v G K. unfold run_handler. rewrite M, !st_get_spec, G.
+    cbn [with_src ans_of_res mgr_get ga_err ga_msg ga_src]. rewrite K. repeat split.
+Qed.
+
+(** strconv.ParseUint semantics of the attachment number: leading zeros of any length, value bound only. *)
+Example parse_uint32_ex :
+  parse_uint32 (repeat 48 24 ++ [49]) = Some 1 /\ parse_uint32 (repeat 48 30) = Some 0 /\
+  parse_uint32 [52;50;57;52;57;54;55;50;57;54] = None /\ parse_uint32 [52;50;57;52;57;54;55;50;57;53] = Some 4294967295 /\
+  parse_uint32 [] = None /\ parse_uint32 [43;49] = None.
+Proof. repeat split. Qed.
